@@ -162,7 +162,7 @@ def main_(seed, nscen):
                 d, m = dirs[di], models[di]
                 namex = rng.choice(NAMES)
                 name = norm(namex)
-                op = rng.choice(["set_uri", "set_uri", "set_uri", "set_node", "set_children", "delete", "delete", "move", "move", "set_md", "mkdir"])
+                op = rng.choice(["set_uri", "set_uri", "set_uri", "set_node", "set_children", "delete", "delete", "move", "move", "set_md", "mkdir", "clone"])
                 t0 = time.time()
                 ow = rng.choice([True, True, False, ONLY_FILES])
                 ow_s = "only-files" if ow == ONLY_FILES else ow
@@ -238,6 +238,21 @@ def main_(seed, nscen):
                         e.update({"rw": src["rw"], "ro": src["ro"], "isdir": src["isdir"]})
                         m2[new_name] = e
                         del m[name]
+                elif op == "clone":
+                    # a listing of one directory given as the initial children of a new one
+                    if len(dirs) >= 6:
+                        continue
+                    history.append([op, di])
+                    st, listing = yield with_timeout(d.list())
+                    if st == "done":
+                        st, res = yield with_timeout(nm.create_new_mutable_directory(listing))
+                    if st == "done":
+                        dirs.append(res)
+                        models.append(dict((n_, dict(e_, user=dict(e_["user"]))) for n_, e_ in m.items()))
+                        dircaps[res.get_readonly_uri()] = len(dirs) - 1
+                        ok = yield compare(len(dirs) - 1, new_nodemaker(g).create_from_cap(res.get_uri()), "a fresh client with the write cap of the clone")
+                        if not ok:
+                            return
                 elif op == "set_md":
                     md = rng.choice([{}, {"k": rng.randrange(5)}, {"z": "q", "tahoe": {"linkcrtime": 0}}])
                     history.append([op, di, namex, md])
@@ -377,7 +392,7 @@ def main_(seed, nscen):
 
 
 BOUND = ("directory scenarios on the real in-process grid (real DirectoryNode over real SDMF/MDMF mutable files on 3 real StorageServers): histories of 10..30 operations "
-         "(set_uri, set_node, set_children, delete with must_exist/must_be_directory/must_be_file, move_child_to within and between directories, set_metadata_for, create_subdirectory; overwrite True/False/only-files) "
+         "(set_uri, set_node, set_children, delete with must_exist/must_be_directory/must_be_file, move_child_to within and between directories, set_metadata_for, create_subdirectory, new directory from a listing; overwrite True/False/only-files) "
          "over 3..6 directories with 16 names that collide under NFC normalization; children are literal/CHK/SSK/MDMF file caps and write or read caps of the directories themselves (shared subdirectories, cycles); "
          "every touched directory is listed after every operation, all directories are re-read by a fresh client through write cap and read cap every 5 operations; build_manifest and deep-stats from every directory at the end")
 KINDS = {
